@@ -24,7 +24,7 @@ use crate::reloc::Reloc;
 #[derive(Clone, Debug)]
 pub enum Src { W(u8), R(u8), L { v: usize, i: usize, d: u8 } }
 #[derive(Clone, Debug)]
-pub enum Sink { Drop, Dc(u8), Forget, Push(usize), Ins(usize, usize), Lazy(usize, usize), Swap(u8) }
+pub enum Sink { Drop, Dc(u8), Forget, Push(usize), Ins(usize, usize), Lazy(usize, usize), Swap(u8), Info }
 #[derive(Clone, Copy, Debug)]
 pub enum HK { Pop, Remove, SwapRemove }
 #[derive(Clone, Copy, Debug)]
@@ -196,6 +196,19 @@ pub trait DynVec<F: Family> {
     fn clone_vec(&self) -> Box<dyn DynVec<F>>;
     fn clone_empty_in(&self, bk: Option<&str>) -> Box<dyn DynVec<F>>;
     fn capacity_op(&mut self, op: &str, n: usize);
+    fn info(&self);
+    fn dcvec(&mut self, ty: u8);
+    fn wswap(&mut self, i: usize, ty: u8);
+    fn tassign(&mut self, i: usize);
+    fn swapb(&mut self, i: usize, j: usize);
+    fn tswap(&mut self, i: usize, j: usize);
+    fn eswap_with(&mut self, i: usize, other: &mut dyn DynVec<F>, j: usize);
+    fn with_elem_mut(&mut self, j: usize, f: &mut dyn FnMut(&mut dyn ErasedMut));
+    fn probe(&self);
+    fn views(&mut self);
+    fn setlen(&mut self, k: usize, typed: bool);
+    fn rawrt(&mut self);
+    fn rawparts(&mut self);
 }
 
 pub struct DV<Tr: ?Sized + Trait, M: any_vec::mem::MemBuilder> {
@@ -216,7 +229,7 @@ macro_rules! dispatch_tag {
     };
 }
 
-pub enum Tok { None, N, Id(String) }
+pub enum Tok { None, N, Id(String), Extra(Vec<String>) }
 
 fn sink_dc<F: Family, H: AnyValue, T: Elem>(h: H, env: &Env<F>) -> Tok {
     match h.downcast::<T>() {
@@ -259,7 +272,7 @@ fn fwd_to<F: Family, V: AnyValue>(val: V, dst: &mut dyn DynVec<F>, at: Option<us
 fn body_of<F: Family>(bytes: &[u8], len: usize) -> String {
     let _g = reg::NoScope::new();
     if F::SIZE == 0 { return "z".to_string(); }
-    if len > 64 {
+    if len > 300 {
         let mut h: u128 = 7;
         let mut torn = false;
         for c in bytes.chunks(F::SIZE) {
@@ -293,6 +306,11 @@ macro_rules! sink_value {
             }
             Sink::Lazy(w, k) => { sink_value!(@lazy $lazy, h, *w, *k, $env); Tok::None }
             Sink::Swap(t) => dispatch_tag!($F, *t, [sink_swap], {$F, _,}, (h)),
+            Sink::Info => {
+                let toks = reg::noscope(|| vec![format!("t{}", tag_of::<$F>(h.value_typeid())), format!("s{}", h.size())]);
+                drop(h);
+                Tok::Extra(toks)
+            }
         }
     }};
     (@lazy yes, $h:ident, $w:expr, $k:expr, $env:expr) => {{
@@ -311,12 +329,53 @@ macro_rules! sink_value {
 
 macro_rules! finish_handle {
     ($tok:expr) => {
-        match $tok { Tok::None => {}, Tok::N => out!("N"), Tok::Id(s) => out!("{}", s) }
+        match $tok { Tok::None => {}, Tok::N => out!("N"), Tok::Id(s) => out!("{}", s),
+                     Tok::Extra(v) => { for s in v { out!("{}", s) } } }
     };
 }
+/// token(s) for one consumed item of a range iterator
+macro_rules! finish_item {
+    ($tok:expr, $id:expr, $rem:expr) => {
+        match $tok {
+            Tok::N => out!("N:{}", $rem),
+            Tok::Extra(v) => out!("{}/{}:{}", $id, v.join("/"), $rem),
+            _ => out!("{}:{}", $id, $rem),
+        }
+    };
+}
+pub fn tag_of<F: Family>(t: TypeId) -> String {
+    if t == TypeId::of::<F::T0>() { "0".into() }
+    else if t == TypeId::of::<F::T1>() { "1".into() }
+    else if t == TypeId::of::<F::T2>() { "2".into() }
+    else if t == TypeId::of::<F::T3>() { "3".into() }
+    else { "?".into() }
+}
+/// object-safe view of a mutable value handle (for swaps across the `dyn DynVec` boundary)
+pub trait ErasedMut {
+    fn em_ptr(&mut self) -> *mut u8;
+    fn em_size(&self) -> usize;
+    fn em_typeid(&self) -> TypeId;
+}
+impl<V: AnyValueMut> ErasedMut for V {
+    fn em_ptr(&mut self) -> *mut u8 { self.as_bytes_mut_ptr() }
+    fn em_size(&self) -> usize { AnyValueTypeless::size(self) }
+    fn em_typeid(&self) -> TypeId { self.value_typeid() }
+}
+pub struct FwdMut<'a>(pub &'a mut dyn ErasedMut);
+impl<'a> AnyValueSizeless for FwdMut<'a> {
+    type Type = Unknown;
+    fn as_bytes_ptr(&self) -> *const u8 { panic!("harness: FwdMut is only used mutably") }
+}
+impl<'a> any_vec::any_value::AnyValueSizelessMut for FwdMut<'a> {
+    fn as_bytes_mut_ptr(&mut self) -> *mut u8 { self.0.em_ptr() }
+}
+impl<'a> AnyValueTypeless for FwdMut<'a> { fn size(&self) -> usize { self.0.em_size() } }
+impl<'a> AnyValue for FwdMut<'a> { fn value_typeid(&self) -> TypeId { self.0.em_typeid() } }
+impl<'a> any_vec::any_value::AnyValueTypelessMut for FwdMut<'a> {}
+impl<'a> AnyValueMut for FwdMut<'a> {}
 
 macro_rules! impl_kind {
-    ($Tr:ty, $M:ty, $clone:tt, $resize:tt, $cei:tt) => {
+    ($Tr:ty, $M:ty, $clone:tt, $resize:tt, $cei:tt, $raw:tt) => {
         impl DV<$Tr, $M> {
             fn push_w<T: Elem>(&mut self, at: Option<usize>) {
                 let x = AnyValueWrapper::new(T::make(reg::fresh()));
@@ -390,6 +449,75 @@ macro_rules! impl_kind {
                     .map(|_| AnyValueWrapper::new(T::make(reg::fresh()))).collect());
                 self.run_erased::<F, _>(r, items, claimed, yielded, eats, fin, env)
             }
+            fn dcvec_t<T: Elem>(&mut self) {
+                let r = self.v.downcast_ref::<T>().is_some();
+                let m = self.v.downcast_mut::<T>().is_some();
+                out!("r{}", if r { "S" } else { "N" });
+                out!("m{}", if m { "S" } else { "N" });
+            }
+            fn wswap_t<F: Family, T: Elem>(&mut self, i: usize) {
+                let mut e = self.v.at_mut(i);
+                let mut w = AnyValueWrapper::new(T::make(reg::fresh()));
+                e.swap(&mut w);
+                out!("{}", show_id(F::SIZE, AnyValueTypeless::as_bytes(&w)));
+                drop(w);
+            }
+            fn tassign_t<T: Elem>(&mut self, i: usize) {
+                let x = T::make(reg::fresh());
+                let mut tv = self.v.downcast_mut::<T>().expect("harness: own type");
+                *tv.at_mut(i) = x;
+            }
+            fn tswap_t<T: Elem>(&mut self, i: usize, j: usize) {
+                let mut tv = self.v.downcast_mut::<T>().expect("harness: own type");
+                tv.as_mut_slice().swap(i, j);
+            }
+            fn probe_t<F: Family, T: Elem>(&self) {
+                let a: Vec<String> = reg::noscope(|| self.v.iter().map(|e| show_id(F::SIZE, e.as_bytes())).collect());
+                let tv = self.v.downcast_ref::<T>().expect("harness: own type");
+                let b: Vec<String> = reg::noscope(|| tv.as_slice().iter().map(|x| x.id_str()).collect());
+                let c: Vec<String> = reg::noscope(|| if F::SIZE == 0 { vec![] } else {
+                    self.v.as_bytes().chunks(F::SIZE).map(|c| show_id(F::SIZE, c)).collect() });
+                let n = self.v.len();
+                let show = |v: &Vec<String>, cnt: usize| if F::SIZE == 0 { format!("z{}", cnt) } else if v.is_empty() { "-".to_string() } else { v.join(".") };
+                out!("{}", show(&a, a.len()));
+                out!("{}", show(&b, b.len()));
+                out!("{}", show(&c, n));
+            }
+            fn views_t<F: Family, T: Elem>(&mut self) {
+                let base = self.v.as_bytes().as_ptr() as usize;
+                let blen = self.v.as_bytes().len();
+                let bmlen = self.v.as_bytes_mut().len();
+                let (sp, slen) = { let s = self.v.spare_bytes_mut(); (s.as_ptr() as usize, s.len()) };
+                let align = self.v.element_layout().align();
+                let mut tv = self.v.downcast_mut::<T>().expect("harness: own type");
+                let (tp, tl) = { let s = tv.as_slice(); (s.as_ptr() as usize, s.len()) };
+                let (scp, scl) = { let s = tv.spare_capacity_mut(); (s.as_ptr() as usize, s.len()) };
+                out!("b{}", if blen == bmlen { blen } else { usize::MAX });
+                out!("s{}", slen);
+                out!("o{}", sp.wrapping_sub(base));
+                out!("sc{}", scl);
+                out!("so{}", scp.wrapping_sub(base));
+                out!("al{}", base % align);
+                out!("ts{}", if tp == base { 1 } else { 0 });
+                out!("tl{}", tl);
+            }
+            fn setlen_t<T: Elem>(&mut self, k: usize, typed: bool) {
+                let len = self.v.len();
+                if typed {
+                    let mut tv = self.v.downcast_mut::<T>().expect("harness: own type");
+                    let spare = tv.spare_capacity_mut();
+                    for j in 0..k { spare[j].write(T::make(reg::fresh())); }
+                    unsafe { tv.set_len(len + k); }
+                } else {
+                    let size = std::mem::size_of::<T>();
+                    let spare = self.v.spare_bytes_mut();
+                    for j in 0..k {
+                        let x = std::mem::ManuallyDrop::new(T::make(reg::fresh()));
+                        for (b, src) in spare[j * size..(j + 1) * size].iter_mut().zip(x.bytes()) { b.write(*src); }
+                    }
+                    unsafe { self.v.set_len(len + k); }
+                }
+            }
             #[allow(clippy::too_many_arguments)]
             fn run_erased<F: Family, V: AnyValue>(&mut self, r: Rng, items: Vec<V>, claimed: usize,
                 yielded: std::rc::Rc<std::cell::Cell<usize>>, eats: &[(EndTok, Sink)], fin: FinTok, env: &Env<F>) {
@@ -403,8 +531,7 @@ macro_rules! impl_kind {
                         Some(e) => {
                             let id = reg::noscope(|| show_id(F::SIZE, e.as_bytes()));
                             let tok = sink_value!(F, e, sink, env, $clone);
-                            let shown = match tok { Tok::N => reg::noscope(|| "N".to_string()), _ => id };
-                            out!("{}:{}", shown, it.len());
+                            finish_item!(tok, id, it.len());
                         }
                     }
                 }
@@ -489,8 +616,7 @@ macro_rules! impl_kind {
                             Some(e) => {
                                 let id = reg::noscope(|| show_id(F::SIZE, e.as_bytes()));
                                 let tok = sink_value!(F, e, sink, env, $clone);
-                                let shown = match tok { Tok::N => reg::noscope(|| "N".to_string()), _ => id };
-                                out!("{}:{}", shown, it.len());
+                                finish_item!(tok, id, it.len());
                             }
                         }
                     }
@@ -577,6 +703,41 @@ macro_rules! impl_kind {
             fn capacity_op(&mut self, op: &str, n: usize) {
                 impl_kind!(@cap $resize, self, op, n)
             }
+            fn info(&self) {
+                let l = self.v.element_layout();
+                out!("t{}", tag_of::<F>(self.v.element_typeid()));
+                out!("s{}", l.size());
+                out!("a{}", l.align());
+                out!("l{}", self.v.len());
+                out!("c{}", self.v.capacity());
+                out!("e{}", if self.v.is_empty() { 1 } else { 0 });
+                out!("d{}", if self.v.element_drop().is_some() { 1 } else { 0 });
+            }
+            fn dcvec(&mut self, ty: u8) { dispatch_tag!(F, ty, [self.dcvec_t], {}, ()) }
+            fn wswap(&mut self, i: usize, ty: u8) { dispatch_tag!(F, ty, [self.wswap_t], {F,}, (i)) }
+            fn tassign(&mut self, i: usize) { dispatch_tag!(F, self.ty, [self.tassign_t], {}, (i)) }
+            fn swapb(&mut self, i: usize, j: usize) {
+                let size = F::SIZE;
+                let b = self.v.as_bytes_mut();
+                for k in 0..size { b.swap(i * size + k, j * size + k); }
+            }
+            fn tswap(&mut self, i: usize, j: usize) { dispatch_tag!(F, self.ty, [self.tswap_t], {}, (i, j)) }
+            fn eswap_with(&mut self, i: usize, other: &mut dyn DynVec<F>, j: usize) {
+                let mut a = self.v.at_mut(i);
+                other.with_elem_mut(j, &mut |b: &mut dyn ErasedMut| {
+                    let mut fb = FwdMut(b);
+                    a.swap(&mut fb);
+                });
+            }
+            fn with_elem_mut(&mut self, j: usize, f: &mut dyn FnMut(&mut dyn ErasedMut)) {
+                let mut b = self.v.at_mut(j);
+                f(&mut *b);
+            }
+            fn probe(&self) { dispatch_tag!(F, self.ty, [self.probe_t], {F,}, ()) }
+            fn views(&mut self) { dispatch_tag!(F, self.ty, [self.views_t], {F,}, ()) }
+            fn setlen(&mut self, k: usize, typed: bool) { dispatch_tag!(F, self.ty, [self.setlen_t], {}, (k, typed)) }
+            fn rawrt(&mut self) { impl_kind!(@rawrt $raw, self) }
+            fn rawparts(&mut self) { impl_kind!(@rawparts $raw, self, F) }
         }
     };
     (@lazyref yes, $s:ident, $i:ident, $depth:ident, $dst:ident, $at:ident) => {{
@@ -625,40 +786,68 @@ macro_rules! impl_kind {
             _ => panic!("harness: bad-op capacity op"),
         }
     };
+    (@rawrt yes, $s:ident) => {{
+        unsafe {
+            let v = std::ptr::read(&$s.v);
+            let parts = v.into_raw_parts();
+            let v2 = AnyVec::from_raw_parts(parts);
+            std::ptr::write(&mut $s.v, v2);
+        }
+    }};
+    (@rawrt no, $s:ident) => { panic!("harness: bad-op raw parts on this backend") };
+    (@rawparts yes, $s:ident, $F:ty) => {{
+        unsafe {
+            let v = std::ptr::read(&$s.v);
+            let parts = v.into_raw_parts();
+            let cl = parts.clone();
+            for p in [&parts, &cl] {
+                out!("l{}", p.len);
+                out!("c{}", p.capacity);
+                out!("s{}", p.element_layout.size());
+                out!("a{}", p.element_layout.align());
+                out!("t{}", tag_of::<$F>(p.element_typeid));
+                out!("d{}", if p.element_drop.is_some() { 1 } else { 0 });
+            }
+            std::mem::forget(cl);
+            let v2 = AnyVec::from_raw_parts(parts);
+            std::ptr::write(&mut $s.v, v2);
+        }
+    }};
+    (@rawparts no, $s:ident, $F:ty) => { panic!("harness: bad-op raw parts on this backend") };
     (@cap no, $s:ident, $op:ident, $n:ident) => {{ let _ = ($op, $n); panic!("harness: bad-op capacity op on a fixed backend") }};
 }
 
 // core kinds (every element family)
 #[cfg(feature = "alloc")]
-impl_kind!(dyn Cloneable, Heap, yes, yes, yes);
+impl_kind!(dyn Cloneable, Heap, yes, yes, yes, yes);
 #[cfg(feature = "alloc")]
-impl_kind!(dyn TNone, Heap, no, yes, no);
-impl_kind!(dyn Cloneable, Stack<48>, yes, no, yes);
-impl_kind!(dyn Cloneable, Stack<512>, yes, no, yes);
-impl_kind!(dyn Cloneable, StackN<2, 48>, yes, no, yes);
-impl_kind!(dyn Cloneable, StackN<3, 512>, yes, no, yes);
-impl_kind!(dyn Cloneable, Reloc, yes, yes, yes);
-impl_kind!(dyn TNone, Reloc, no, yes, no);
-impl_kind!(dyn Cloneable, Empty, yes, no, yes);
+impl_kind!(dyn TNone, Heap, no, yes, no, yes);
+impl_kind!(dyn Cloneable, Stack<48>, yes, no, yes, no);
+impl_kind!(dyn Cloneable, Stack<512>, yes, no, yes, no);
+impl_kind!(dyn Cloneable, StackN<2, 48>, yes, no, yes, no);
+impl_kind!(dyn Cloneable, StackN<3, 512>, yes, no, yes, no);
+impl_kind!(dyn Cloneable, Reloc, yes, yes, yes, yes);
+impl_kind!(dyn TNone, Reloc, no, yes, no, yes);
+impl_kind!(dyn Cloneable, Empty, yes, no, yes, yes);
 // extra kinds (the 8-byte families only)
 #[cfg(feature = "alloc")]
-impl_kind!(dyn Send, Heap, no, yes, no);
+impl_kind!(dyn Send, Heap, no, yes, no, yes);
 #[cfg(feature = "alloc")]
-impl_kind!(dyn Sync, Heap, no, yes, no);
+impl_kind!(dyn Sync, Heap, no, yes, no, yes);
 #[cfg(feature = "alloc")]
-impl_kind!(dyn Send + Sync, Heap, no, yes, no);
+impl_kind!(dyn Send + Sync, Heap, no, yes, no, yes);
 #[cfg(feature = "alloc")]
-impl_kind!(dyn Cloneable + Send, Heap, yes, yes, no);
+impl_kind!(dyn Cloneable + Send, Heap, yes, yes, no, yes);
 #[cfg(feature = "alloc")]
-impl_kind!(dyn Cloneable + Sync, Heap, yes, yes, no);
+impl_kind!(dyn Cloneable + Sync, Heap, yes, yes, no, yes);
 #[cfg(feature = "alloc")]
-impl_kind!(dyn Cloneable + Send + Sync, Heap, yes, yes, no);
-impl_kind!(dyn Cloneable, Stack<15>, yes, no, yes);
-impl_kind!(dyn Cloneable, Stack<16>, yes, no, yes);
-impl_kind!(dyn Cloneable, Stack<17>, yes, no, yes);
-impl_kind!(dyn Cloneable, StackN<2, 15>, yes, no, yes);
-impl_kind!(dyn Cloneable, StackN<2, 16>, yes, no, yes);
-impl_kind!(dyn Cloneable, StackN<2, 17>, yes, no, yes);
+impl_kind!(dyn Cloneable + Send + Sync, Heap, yes, yes, no, yes);
+impl_kind!(dyn Cloneable, Stack<15>, yes, no, yes, no);
+impl_kind!(dyn Cloneable, Stack<16>, yes, no, yes, no);
+impl_kind!(dyn Cloneable, Stack<17>, yes, no, yes, no);
+impl_kind!(dyn Cloneable, StackN<2, 15>, yes, no, yes, no);
+impl_kind!(dyn Cloneable, StackN<2, 16>, yes, no, yes, no);
+impl_kind!(dyn Cloneable, StackN<2, 17>, yes, no, yes, no);
 
 macro_rules! mk {
     ($F:ty, $Tr:ty, $M:ty, $ty:expr, $cap:expr, sizeable) => {{
